@@ -23,7 +23,9 @@
     applied) AND every step of every linearizable read on every node against RqRead's rules
     (not upgraded only in a term with a strong read; quorum check after the read index; term
     unchanged; wait target = read index; served only once the FSM reached it).  Final per-node
-    dumps must be equal."""
+    dumps must be equal.
+(C') the repository's own store and system tests are run with the hooks on, one process and one trace
+    per test, and validated by the same trace spec (node-level rules only)."""
 import json, os, vlib
 LEVEL = "model_checking"
 TECHNIQUE = "TLA+ cluster spec, TLC exhaustive + negative controls; fault-injected live-cluster histories and read-protocol events validated by a TLA+ trace spec"
@@ -78,6 +80,28 @@ def run(ctx):
         return "lin:%s" % (name or "rejected")
     vlib.trace_check(ctx, "TraceCluster", "TraceCluster.cfg", tr, "cluster history / read protocol",
                      key_fn=key, selftest=corrupt, timeout=3000, heap="12g")
+    # the repository's own store and system tests, run with the hooks on (one process and one trace per test), as
+    # further executions of the node layer: read protocol and FSM order rules (nothing is compared across nodes:
+    # a test may build several clusters that reuse node ids).  Tests that drive the FSM by hand are left out.
+    trr = os.path.join(ctx.scratch, "repotests.ndjson")
+    pref = ("lr.", "fsm.", "srt.", "vl.")
+    wb = set()
+    sd = os.path.join(vlib.REPO, "store")
+    for fn in os.listdir(sd):
+        if fn.endswith("_test.go"):
+            cur = None
+            for line in open(os.path.join(sd, fn), errors="replace"):
+                if line.startswith("func Test"):
+                    cur = line[5:line.index("(")]
+                elif cur and "NewFSM(" in line:
+                    wb.add(cur)
+    rts = [vlib.repo_test_traces(ctx, "./store", ".*", trr, keep=lambda ev: ev.startswith(pref), skip=wb, limit=ctx.pick(48, None)),
+           vlib.repo_test_traces(ctx, "./system_test", ".*", trr, keep=lambda ev: ev.startswith(pref), limit=ctx.pick(12, None))]
+    ctx.cov["repository_tests_as_traces"] = rts
+    if sum(x["tests_with_events"] for x in rts) < 10:
+        raise vlib.Undecided("repository tests produced no traces: %s" % rts)
+    vlib.trace_check(ctx, "TraceCluster", "TraceClusterRepo.cfg", trr, "repository test run with hooks on",
+                     key_fn=lambda bad, name: "lin:repotest:%s" % (name or "rejected"), timeout=3000, heap="12g")
     for m in st.get("FinalMismatch") or []:
         ctx.violation("lin:final-dump-mismatch", "after healing and convergence the nodes' databases differ: %s" % m, st)
     ctx.add("traces_validated_against_impl", st["Runs"])
